@@ -743,3 +743,135 @@ Proof.
   replace (ends_loop c) with false; [exact IH|].
   unfold ends_loop. destruct (api_k c) eqn:E; try reflexivity; [congruence|]. rewrite H2; reflexivity.
 Qed.
+
+(* ------------------------------------------------------------------------------------------------ *)
+(* the model instantiated by the generated facts coincides with the reference reading, under named   *)
+(* conditions on the record — each theorem of Props.v discharges exactly the conditions it needs     *)
+From GU Require Import C17.Facts.
+
+(* isStale's arithmetic and what is aged *)
+Definition thr_ok (F : facts) : Prop :=
+  f_nil_time_stale F = false /\ f_time_source F = TModTime /\ f_ft_default_modtime F = TModTime /\
+  f_ft_default_when_sys_nil F = true /\
+  f_age_unit F = UMillis /\ f_cmp F = CGt /\ f_factor F = 2 /\ f_period_unit F = UMillis.
+
+(* IsStale's ordered guards and areHeartBeatFilesAllStale *)
+Definition view_ok (F : facts) : Prop :=
+  f_ls_err_stale F = false /\ f_empty_uses_dir F = true /\ f_dir_stat_err_stale F = false /\
+  f_empty_period F = PHeartBeat /\ f_files_period F = PHeartBeat /\
+  f_file_default_stale F = false /\ f_file_judged_when_stat_ok F = true /\ f_combine F = CombAll.
+
+(* heartBeat's loop and the acquire path *)
+Definition loop_ok (F : facts) : Prop :=
+  f_hb_ctx_check_first F = true /\ f_hb_now_in_loop F = true /\ f_hb_write_err F = EIgnore /\
+  f_hb_chtimes_err F = EIgnore /\ f_hb_chtimes_arg F = ANow /\ f_hb_sleep_with_ctx F = true /\
+  f_hb_sleep_slack_ns F = ms /\ f_hb_spawn_period F = PHeartBeat /\ f_tl_chtimes_dir_now F = true.
+
+(* TryLock's branches and ReleaseIfStale *)
+Definition op_ok (F : facts) : Prop :=
+  f_tl_mkdir F = true /\ f_tl_stale_test F = true /\ f_tl_override_test F = true /\
+  f_tl_override_releases F = true /\ f_tl_stale_err F = TLStaleLock /\ f_tl_live_err F = TLLocked /\
+  f_release F = RIfStaleUnlock.
+
+(* what ends the loop *)
+Definition end_ok (F : facts) : Prop :=
+  f_hb_ctx_check_first F = true /\ f_hb_ctx F = DCancelOfCtx /\ f_hb_cancel_registered F = true /\
+  f_unlock_cancels_first F = true /\
+  has_store (f_x_timeout_branch F) = false /\ has_store (f_x_err_branch F) = false /\ has_store (f_x_ok_tail F) = false.
+
+Lemma is_stale_time_f_eq F : thr_ok F -> forall mt now p, is_stale_time_f F mt now p = is_stale_time mt now p.
+Proof.
+  intros (H1 & H2 & H3 & H4 & H5 & H6 & H7 & H8) mt now p.
+  unfold is_stale_time_f, is_stale_time, reads_mtime. rewrite H1, H2, H3, H4, H5, H6, H7, H8.
+  destruct mt; reflexivity.
+Qed.
+
+Lemma is_stale_view_f_eq F : thr_ok F -> view_ok F -> forall v now p, is_stale_view_f F v now p = is_stale_view v now p.
+Proof.
+  intros Ht (H1 & H2 & H3 & H4 & H5 & H6 & H7 & H8) v now p.
+  unfold is_stale_view_f, is_stale_view, files_all_stale, file_stale_f, per.
+  rewrite H1, H2, H3, H4, H5, H6, H7, H8.
+  destruct (v_ls v) as [[|f fs]|]; try reflexivity.
+  - destruct (v_dir v); [apply is_stale_time_f_eq; assumption|reflexivity].
+  - cbn [combine_f]. f_equal. apply map_ext. intros [m|]; [apply is_stale_time_f_eq; assumption|reflexivity].
+Qed.
+
+Lemma is_stale_na_f_eq F : thr_ok F -> view_ok F -> forall evs t1 t2 t3 p,
+  is_stale_na_f F evs t1 t2 t3 p = is_stale_na evs t1 t2 t3 p.
+Proof. intros Ht Hv evs t1 t2 t3 p. apply is_stale_view_f_eq; assumption. Qed.
+
+Lemma run_op_f_eq F : thr_ok F -> view_ok F -> op_ok F -> forall op st now p,
+  run_op_f F op st now p = run_op op st now p.
+Proof.
+  intros Ht Hv (H1 & H2 & H3 & H4 & H5 & H6 & H7) op st now p.
+  assert (S : forall s, is_stale_st_f F s now p = is_stale_st s now p)
+    by (intros s; apply is_stale_view_f_eq; assumption).
+  assert (R : forall s, release_f F s now p = release_if_stale s now p).
+  { intros s. unfold release_f, release_if_stale, unlock_st. rewrite H7, S.
+    destruct (is_stale_st s now p) eqn:E; [|reflexivity].
+    destruct (l_dir s) eqn:D; [reflexivity|].
+    unfold is_stale_st, view_of, is_stale_view in E. rewrite D in E. discriminate. }
+  destruct op; unfold run_op_f, run_op; [now rewrite S | apply R |].
+  unfold try_lock. generalize 2%nat as fuel. intros fuel. revert st.
+  induction fuel as [|f IH]; intros st; cbn [try_lock_fuel_f try_lock_fuel]; rewrite H1, H2, H3, ?H4, H5, H6; cbn [negb];
+    destruct (l_dir st); try reflexivity; rewrite S;
+    destruct (is_stale_st st now p); cbn [Bool.eqb tl_out]; try reflexivity;
+    destruct override; cbn [Bool.eqb]; try reflexivity.
+  rewrite R. apply IH.
+Qed.
+
+Lemma cycles_events_f_eq F : loop_ok F -> forall cs s ex p,
+  cycles_events_f F s ex cs p = cycles_events s ex cs p.
+Proof.
+  intros (H1 & H2 & H3 & H4 & H5 & H6 & H7 & H8 & H9).
+  induction cs as [|c r IH]; intros s ex p; [reflexivity|].
+  cbn [cycles_events_f cycles_events].
+  assert (G : goes_on F c = true) by (unfold goes_on; rewrite H3, H4; destruct (c_fault c); reflexivity).
+  rewrite G. f_equal.
+  - unfold cycle_events_f, cycle_events, stamp_f. rewrite H3, H5. destruct (c_fault c), ex; reflexivity.
+  - unfold next_start_f, next_start. rewrite H7. apply IH.
+Qed.
+
+Lemma holder_trace_f_eq F : loop_ok F -> forall t0 a cs p, holder_trace_f F t0 a cs p = holder_trace t0 a cs p.
+Proof.
+  intros H t0 a cs p. pose proof H as (H1 & H2 & H3 & H4 & H5 & H6 & H7 & H8 & H9).
+  unfold holder_trace_f, holder_trace, acquire_events_f, acquire_events, per. rewrite H8, H9.
+  now rewrite cycles_events_f_eq.
+Qed.
+
+Lemma loop_end_f_eq F : end_ok F -> forall calls, loop_end_f F calls = loop_end calls.
+Proof.
+  intros (H1 & H2 & H3 & H4 & H5 & H6 & H7). induction calls as [|c r IH]; [reflexivity|].
+  cbn [loop_end_f loop_end]. rewrite IH.
+  replace (ends_loop_f F c) with (ends_loop c); [reflexivity|].
+  unfold ends_loop_f, ends_loop. rewrite H1, H2, H3, H4, H5, H6, H7.
+  destruct (api_k c), (api_same c), (f_lwt_own_store F); reflexivity.
+Qed.
+
+(* observers, generically in the operation interpreter *)
+Fixpoint run_observers_g (ro : obs_op -> lockst -> Z -> Z -> lockst * outcome)
+  (evs : list ev) (period : Z) (ops : list (Z * obs_op)) (tampered : option lockst) : list outcome * option lockst :=
+  match ops with
+  | [] => ([], tampered)
+  | (t, op) :: r =>
+      let st := match tampered with None => state_at evs t | Some s => s end in
+      let '(st', o) := ro op st t period in
+      let tampered' := match tampered with
+                       | None => if outcome_eqb o (benign op) then None else Some st'
+                       | Some _ => Some st'
+                       end in
+      let '(os, fin) := run_observers_g ro evs period r tampered' in (o :: os, fin)
+  end.
+
+Lemma run_observers_g_ext ro1 ro2 : (forall op st t p, ro1 op st t p = ro2 op st t p) ->
+  forall evs p ops tam, run_observers_g ro1 evs p ops tam = run_observers_g ro2 evs p ops tam.
+Proof.
+  intros E evs p. induction ops as [|[t op] r IH]; intros tam; [reflexivity|].
+  cbn [run_observers_g]. rewrite E. destruct (ro2 op _ t p) as [st' o]. rewrite IH. reflexivity.
+Qed.
+
+Lemma run_observers_g_run_op evs p ops tam : run_observers_g run_op evs p ops tam = run_observers evs p ops tam.
+Proof.
+  revert tam. induction ops as [|[t op] r IH]; intros tam; [reflexivity|].
+  cbn [run_observers_g run_observers]. destruct (run_op op _ t p) as [st' o]. rewrite IH. reflexivity.
+Qed.
